@@ -5,6 +5,4 @@ NEXT Next
 INVARIANT LawFlatten
 INVARIANT LawExtends
 INVARIANT LawVMRefines
-INVARIANT LawVMFlags
-INVARIANT LawVMNoBadState
 CHECK_DEADLOCK FALSE
